@@ -142,6 +142,16 @@ func (w *world) monitor(rep *emit.Report, prop string, hid int, n *node) {
 			if st.ev.kind == evPacket && st.accepted && mustReject(st) != "" {
 				rep.Fail("C08-invalid-proposal-accepted", "proposal violating rule "+mustReject(st)+" was accepted", in())
 			}
+			// M11 a node with a completed epoch must not enter (by packet or by its own command) a reshare
+			// that keeps fewer current members than that epoch's threshold: the old secret could not be
+			// re-shared. Evaluated on the stored outcome only.
+			if (a.cur.state == "Proposed" || a.cur.state == "Proposing") && (a.cur.state != b.cur.state || a.cur.epoch != b.cur.epoch) &&
+				b.fin != nil && effective(b).State == dkg.Complete && a.cur.epoch > 1 &&
+				int64(len(a.cur.remaining)) < b.fin.threshold {
+				rep.Fail("C08-reshare-below-old-threshold-accepted",
+					fmt.Sprintf("reshare proposal accepted with %d remaining members although the last completed epoch has threshold %d",
+						len(a.cur.remaining), b.fin.threshold), in())
+			}
 		}
 		// M10 a single-field alteration of a genuinely signed packet (signature kept) must be refused
 		if prop == "C09" && st.ev.kind == evPacket && st.accepted {
@@ -184,7 +194,31 @@ func (w *world) monitor(rep *emit.Report, prop string, hid int, n *node) {
 				return false
 			}
 			if signer == nil || !verifiesUnder(signer.Key) {
-				rep.Fail("C09-unsigned-packet-accepted", "accepted packet is not signed by the participant it names", in())
+				cl, what := "C09-unsigned-packet-accepted", "accepted packet is not signed by the participant it names"
+				// does it verify under a LATER entry with the same address (a shadow joiner)?
+				first := true
+				for _, p := range append(append([]*pdkg.Participant{}, next.Remaining...), next.Joining...) {
+					if p.GetAddress() != md.GetAddress() {
+						continue
+					}
+					if !first && verifiesUnder(p.Key) {
+						cl = "C09-shadow-joiner-key-accepted"
+						what = "accepted packet verifies only under the key of a later (joining) entry that re-uses the sender's address, not under the key the applied terms record first (remaining member) for " + md.GetAddress()
+					}
+					first = false
+				}
+				rep.Fail(cl, what, in())
+			}
+			// M12 packets other than proposals: the key that counts is the one the node's STORED remaining
+			// list records for the sender's address
+			if st.ev.packet.GetProposal() == nil {
+				for _, p := range effective(b).Remaining {
+					if p.GetAddress() == md.GetAddress() && !verifiesUnder(p.Key) {
+						rep.Fail("C09-shadow-joiner-key-accepted",
+							"packet accepted although its signature does not verify under the key the node's stored remaining list records for "+md.GetAddress(), in())
+						break
+					}
+				}
 			}
 			// M7 role rule
 			base := effective(b)
